@@ -28,7 +28,7 @@ ASSUMPTIONS = ["meta['submission_index'] legitimately varies with the schedule a
                'no wall-clock time in any verdict; delays in the multiprocessing runs only perturb completion order']
 CONFIG = {
     'quick': {'shards': 16, 'cases': 5, 'timeout': 900, 'floor': 30, 'mp_every': 5},
-    'thorough': {'shards': 32, 'cases': 70, 'timeout': 3400, 'floor': 800, 'mp_every': 35},
+    'thorough': {'shards': 32, 'cases': 210, 'timeout': 5400, 'floor': 2400, 'mp_every': 35},
 }
 REQUIRED = ['cases_with_progress_bar', 'scheduled_runs', 'runs_with_cancellation', 'runs_with_out_of_order_exec', 'runs_with_not_ready',
             'sampler_rej', 'sampler_smc', 'updates_checked', 'distinct_interleaving', 'mp_runs']
